@@ -65,6 +65,7 @@ def evaluate(case, ctr, rng):
                     viols.append({"kind": "relative-context", "key": (ln, k, ckey), "ckey": ckey, "type_label": ckey, "atom": atom,
                                   "what": "block at line %d, relative_context(%+d) (member %d): %s; member %s" % (ln, k, j + k, det, t),
                                   "exec": frag.slim_exec(e)})
+    viols.extend(evaluate_attribution(case, ctr))
     # empty when the index is impossible
     for b in fn.blocks:
         ctx = fn.transaction_context(b)
@@ -80,6 +81,64 @@ def evaluate(case, ctr, rng):
     return viols, nontrivial
 
 
+def attribution_table(rng):
+    """'Reads through `gtxn i f`, `int i; gtxns f` and `txn GroupIndex; int k; +/-; gtxns f` are attributed to the right
+    transaction': one unconditional check per (access form, index / offset, field); the expectation travels in a feature."""
+    out = []
+    checks = {"RekeyTo": [("global", "ZeroAddress"), ("==",)], "Fee": [("int", 1000), ("<=",)], "TypeEnum": [("int", "pay"), ("==",)]}
+    for field, tail in checks.items():
+        for i in (0, 1, 2, 5, 15):
+            out.append(([("gtxn", i, field)] + tail, "abs", i, field))
+            out.append(([("int", i), ("gtxns", field)] + tail, "abs", i, field))
+            out.append(([("pushint", i), ("gtxns", field)] + tail, "abs", i, field))
+        for k in (1, 2, 3, 15):
+            out.append(([("txn", "GroupIndex"), ("int", k), ("+",), ("gtxns", field)] + tail, "rel", k, field))
+            out.append(([("int", k), ("txn", "GroupIndex"), ("+",), ("gtxns", field)] + tail, "rel", k, field))
+            out.append(([("txn", "GroupIndex"), ("pushint", k), ("-",), ("gtxns", field)] + tail, "rel", -k, field))
+    cases = []
+    for cond, fam, idx, field in out:
+        for consumer in ("assert", "bz"):
+            if consumer == "assert":
+                prog = cond + [("assert",), ("int", 1), ("return",)]
+                leaf = len(prog) - 2
+            else:
+                prog = cond + [("bz", "FAIL"), ("int", 1), ("return",), ("label", "FAIL"), ("err",)]
+                leaf = len(cond) + 1
+            cases.append((prog, 6, ["attribution_case", "expect_attr=%s:%d:%s@%d" % (fam, idx, field, leaf + 2)]))
+    rng.shuffle(cases)
+    return cases[:160]
+
+
+def evaluate_attribution(case, ctr):
+    viols = []
+    for f in case.features:
+        if not str(f).startswith("expect_attr="):
+            continue
+        spec, line = f.split("=", 1)[1].split("@")
+        fam, idx, field = spec.split(":")
+        idx, line = int(idx), int(line)
+        for b in case.function.blocks:
+            if not (b.entry_instr.line <= line <= b.exit_instr.line):
+                continue
+            ctx = case.function.transaction_context(b)
+            sub = ctx.absolute_context(idx) if fam == "abs" else ctx.relative_context(idx)
+            ctr["attribution_cases"] += 1
+            if field == "RekeyTo":
+                ok = sub.rekeyto.no_addr and not sub.rekeyto.any_addr and not sub.rekeyto.possible_addr
+                got = (sub.rekeyto.any_addr, sub.rekeyto.no_addr, list(sub.rekeyto.possible_addr))
+            elif field == "Fee":
+                ok = (not sub.max_fee_unknown) and sub.max_fee == 1000
+                got = ("unknown" if sub.max_fee_unknown else sub.max_fee)
+            else:
+                got = sorted(str(t) for t in sub.transaction_types)
+                ok = len(got) == 1 and "Pay" in got[0]
+            if not ok:
+                viols.append({"kind": "read-not-attributed", "key": (fam, idx, field), "ckey": "attribution",
+                              "what": "an unconditional check of %s read through the %s %s %+d is not recorded for that member at the accepting block (line %d): %s" % (
+                                  field, "absolute index" if fam == "abs" else "offset", "", idx, line, got)})
+    return viols
+
+
 _P = {"gtxn": 0.7, "keys": ["Addr", "Addr", "Fee", "Type", "OC", "GroupIndex", "GroupSize"]}
 _c = fragcheck.FragCheck(
     PROP, evaluate,
@@ -91,6 +150,6 @@ _c = fragcheck.FragCheck(
     rule="fragment programs reading up to three other members through `gtxn i`, `int i; gtxns` and `txn GroupIndex; int k; +/-; "
          "gtxns` (both operand orders of +, index beyond the group) x groups with independent valuations per member; non-trivial "
          "= distinct (program, block, family, index/offset) for a member whose fields the program reads",
-    classify=classify.fragment, cap=(500, 1200),
+    classify=classify.fragment, cap=(500, 1200), extra_cases=attribution_table,
 )
 _c.export(globals())
